@@ -4,6 +4,7 @@ Driver ops of the loss layer (exact, on integers / rationals):
   sensIndex   {"nS","nP","states","params","obs","target_param","target_state"}
                                                  -> index lists of the current variant (+ both variants)
   sensToGrad  {"numS","sens","dl","w"}          -> {"ok": grad} | {"err": class}
+  setParam    {"numParam","target_param","theta"} -> {"kind": none|positional|byName, ...} | {"err": class}
 Numbers come in as JSON integers or strings "p/q" and go out as strings "p/q" (Codec.ratToJson).
 -/
 import Pygom.Codec
@@ -73,11 +74,24 @@ def opSensToGrad (j : Json) : Except String Json := do
   | .ok g => pure (Json.mkObj [("ok", ratsToJson g)])
   | .error e => pure (Json.mkObj [("err", e)])
 
+def opSetParam (j : Json) : Except String Json := do
+  let numParam ← (fld j "numParam").getNat?
+  let tp ← optStrs (fld j "target_param")
+  let theta ← listOfJson ratOfJson (fld j "theta")
+  match setParam numParam tp theta with
+  | .ok .none => pure (Json.mkObj [("kind", "none")])
+  | .ok (.positional θ) => pure (Json.mkObj [("kind", "positional"), ("theta", ratsToJson θ)])
+  | .ok (.byName pairs) =>
+    pure (Json.mkObj [("kind", "byName"),
+      ("pairs", Json.arr (pairs.map (fun kv => Json.arr #[(kv.1 : Json), ratToJson kv.2])).toArray)])
+  | .error e => pure (Json.mkObj [("err", e)])
+
 def handleLoss (op : String) (j : Json) : Option (Except String Json) :=
   match op with
   | "broadcast" => some (opBroadcast j)
   | "sensIndex" => some (opSensIndex j)
   | "sensToGrad" => some (opSensToGrad j)
+  | "setParam" => some (opSetParam j)
   | _ => none
 
 end Pygom
